@@ -46,18 +46,37 @@ RULE = ("(1) every history of length<=L (quick 4; thorough 6 for DictLoader, 5 f
         "by ANOTHER environment: the restarted-process / shared-cache situation, every load is a hit) "
         "and, long histories only, fswarm (FileSystemBytecodeCache directory filled the same way and "
         "shared by all environments of the shard); the reference model is the same as without a "
-        "bytecode cache. Per lookup the harness observes the names passed to "
+        "bytecode cache. (4) the application using the public cache object itself between the loads "
+        "(pre-warming, inspection, invalidation; env.cache is the LRU mapping of capacity cache_size "
+        "keyed by (weak reference to the loader, name), a dict when unbounded): every history of "
+        "length<=3 (thorough 4) over {get a|b|c, modify a, delete a, env.cache.setdefault(key, "
+        "template loaded by the application through loader.load) a|b|c, env.cache[key] = template "
+        "a|b|c, env.cache.get(key) a|b, env.cache[key] a|b, del env.cache[key] a|b, key in env.cache, "
+        "env.cache.clear(), env.cache.copy() (the copy must equal the cache, keep its capacity under "
+        "inserts of its own and not be noticed by the original), iteration (keys() / iter / "
+        "reversed / items() / values() must agree and show the cached templates)} that contains a "
+        "direct cache use, on cache sizes 1, 2 (every third history also unbounded; length 4: one "
+        "of 1, 2, 3, rotating), loader kind and auto_reload rotating from history to history; plus "
+        "per shard 8 (thorough 100) random histories of length 5..9 (6..12), about half of the steps direct "
+        "cache uses, on every loader kind / mtime direction / bytecode-cache mode of (2) and sizes "
+        "1, 2, 3, unbounded. The reference model treats get / [] / setdefault of a present key as a "
+        "use (most recently used afterwards), []= and setdefault of an absent key as an insert that "
+        "cleans out the least recently used entry only when a new key meets a full cache, and "
+        "accepts either for `in`; returned objects must be the cached templates, KeyError exactly "
+        "for absent keys; a template put there by the application is served, reloaded and evicted "
+        "like one the environment loaded. Per lookup the harness observes the names passed to "
         "loader.get_source (instance wrapper), returned template identity, render text / "
         "TemplateNotFound, and after the lookup len(env.cache) and the (loader, name) pairs in "
         "env.cache.keys() (for a bounded cache also their order, documented as most recently used "
-        "first); accepted iff some state of the reference model "
+        "first) -- the same after every direct cache use; accepted iff some state of the reference model "
         "predicts exactly that (so: no stale serve, no needless reload of a valid cached template, "
         "eviction only when room is needed and only of the least recently used entry, no lost or "
         "duplicate entry). distinct = distinct op sequences of length 2..5 (length-6 ones are "
-        "only counted, see histories_len6) + distinct random long histories")
+        "only counted, see histories_len6) + distinct random long histories + distinct cache-API "
+        "histories of length>=2")
 LEVEL_TEXT = ("held on every enumerated (history, cache size, auto_reload, loader) execution up to the "
-              "stated length bound; nothing is claimed for longer histories, more than 3 names or "
-              "concurrent use")
+              "stated length bound, incl. the histories in which the application uses env.cache "
+              "directly; nothing is claimed for longer histories, more than 3 names or concurrent use")
 ASSUMPTIONS = [
     "single-threaded use of the environment; at most 3 template names, 2 source versions per name, 2 loaders",
     "FileSystemLoader change detection is exercised only through distinct whole-second mtimes set with "
@@ -67,6 +86,12 @@ ASSUMPTIONS = [
     "template name and the loader or a weak reference to it -- if that layout changes the content "
     "checks stop (counter cache_keys_unreadable) and the floor on cache_content_checks turns the run "
     "INCONCLUSIVE",
+    "direct cache use: the key under which the environment files a template is discovered from a probe "
+    "environment (2-tuple of name and loader / weak reference); templates the application inserts are "
+    "loaded with the documented loader.load(env, name, globals) from the CURRENT source of that name "
+    "(an insert for a name the loader does not have is skipped); the value stored under a key is always "
+    "a template of that key's name and loader; whether `key in cache` counts as a use is left open; "
+    "items() / values() are compared as sets, only keys() / iter / reversed have a documented order",
     "PackageLoader only on a regular directory package (the zip variant supplies no up-to-date check)",
     "where the documentation is silent (same text rewritten; stale entry after a failed reload) either behaviour is accepted",
     "bytecode caches: an in-memory BytecodeCache subclass and FileSystemBytecodeCache, both counting "
@@ -76,7 +101,7 @@ ASSUMPTIONS = [
     "non-reloading environment does after its loader attribute is replaced)",
 ]
 NSHARDS = {"quick": 16, "thorough": 16}
-BUDGET_S = {"quick": 105, "thorough": 1200}
+BUDGET_S = {"quick": 120, "thorough": 1200}
 FLOORS = {
     "quick": {"evaluations": 36000, "distinct": 1300,
               "counters": {"lookups": 90000, "loader_calls": 80000, "served_from_cache": 16000,
@@ -90,7 +115,16 @@ FLOORS = {
                            "cache_content_checks": 90000, "cache_order_checks": 60000,
                            "reload_in_full_cache": 270, "fs_reload_mtime_backwards": 300,
                            "exec_bcc_cold": 3500, "exec_bcc_warm": 3500, "exec_bcc_fswarm": 800,
-                           "bytecode_hits": 4500, "lookup_of_changed_bytecode_loaded": 160}},
+                           "bytecode_hits": 4500, "lookup_of_changed_bytecode_loaded": 160,
+                           "cache_api_ops": 19000, "cacheapi_histories": 2300,
+                           "exec_cacheapi": 7000, "long_cacheapi_histories": 32,
+                           "cacheop_clear": 950, "cacheop_contains_hit": 200, "cacheop_copy": 950,
+                           "cacheop_delitem_hit": 380, "cacheop_get_hit": 450,
+                           "cacheop_getitem_hit": 350, "cacheop_hit_must_refresh_recency": 300,
+                           "cacheop_insert_new_key_into_full_cache": 1100, "cacheop_iterate": 1000,
+                           "cacheop_setdefault_hit": 900, "cacheop_setdefault_miss": 3400,
+                           "cacheop_setdefault_miss_on_full_cache": 550, "cacheop_setitem": 4300,
+                           "lookup_served_template_put_by_application": 900}},
     "thorough": {"evaluations": 650000, "distinct": 12000,
                  "counters": {"lookups": 1700000, "loader_calls": 1400000,
                               "served_from_cache": 280000, "reload_of_cached": 13000,
@@ -106,7 +140,19 @@ FLOORS = {
                               "fs_reload_mtime_backwards": 9800,
                               "exec_bcc_cold": 80000, "exec_bcc_warm": 80000,
                               "exec_bcc_fswarm": 21000, "bytecode_hits": 145000,
-                              "lookup_of_changed_bytecode_loaded": 7500}},
+                              "lookup_of_changed_bytecode_loaded": 7500,
+                              "cache_api_ops": 190000, "cacheapi_histories": 23000,
+                              "exec_cacheapi": 70000, "long_cacheapi_histories": 320,
+                              "cacheop_clear": 9500, "cacheop_contains_hit": 2000,
+                              "cacheop_copy": 9500, "cacheop_delitem_hit": 3800,
+                              "cacheop_get_hit": 4500, "cacheop_getitem_hit": 3500,
+                              "cacheop_hit_must_refresh_recency": 3000,
+                              "cacheop_insert_new_key_into_full_cache": 11000,
+                              "cacheop_iterate": 10000, "cacheop_setdefault_hit": 9000,
+                              "cacheop_setdefault_miss": 34000,
+                              "cacheop_setdefault_miss_on_full_cache": 5500,
+                              "cacheop_setitem": 43000,
+                              "lookup_served_template_put_by_application": 9000}},
 }
 
 NAMES = ("a", "b", "c")
@@ -371,21 +417,64 @@ def observe_cache(env, loaders):
         return n, None
     out = []
     for k in raw:
-        if not isinstance(k, tuple):
+        ok = observe_key(k, loaders)
+        if ok is None:
             return n, None
-        name = next((x for x in k if isinstance(x, str)), None)
-        lid = None
-        for x in k:
-            if isinstance(x, str):
-                continue
-            tgt = x() if isinstance(x, weakref.ref) else x
-            for i, ld in enumerate(loaders):
-                if tgt is ld:
-                    lid = i
-        if name is None or lid is None:
-            return n, None
-        out.append((lid, name))
+        out.append(ok)
     return n, out
+
+
+def observe_key(k, loaders):
+    """(loader id, name) of one cache key or None when it cannot be read."""
+    if not isinstance(k, tuple):
+        return None
+    name = next((x for x in k if isinstance(x, str)), None)
+    lid = None
+    for x in k:
+        if isinstance(x, str):
+            continue
+        tgt = x() if isinstance(x, weakref.ref) else x
+        for i, ld in enumerate(loaders):
+            if tgt is ld:
+                lid = i
+    if name is None or lid is None:
+        return None
+    return (lid, name)
+
+
+_KEY_MAKER = []
+
+
+def key_maker():
+    """How an application addresses a template in env.cache: discovered from
+    the key an environment itself files a template under (a 2-tuple of the
+    template name and the loader or a weak reference to it).  None when the
+    layout cannot be read (the cache-API histories are then skipped and their
+    floors turn the run INCONCLUSIVE)."""
+    if _KEY_MAKER:
+        return _KEY_MAKER[0]
+    from jinja2 import DictLoader, Environment
+
+    mk = None
+    try:
+        ld = DictLoader({"probe": ""})
+        env = Environment(loader=ld, cache_size=2)
+        env.get_template("probe")
+        (k,) = list(env.cache.keys())
+        if isinstance(k, tuple) and len(k) == 2:
+            ni = [i for i, x in enumerate(k) if x == "probe"]
+            li = [i for i, x in enumerate(k) if x is ld or (isinstance(x, weakref.ref) and x() is ld)]
+            if len(ni) == 1 and len(li) == 1 and ni != li:
+                as_ref = isinstance(k[li[0]], weakref.ref)
+                name_first = ni[0] == 0
+
+                def mk(loader, name):
+                    lk = weakref.ref(loader) if as_ref else loader
+                    return (name, lk) if name_first else (lk, name)
+    except Exception:  # noqa: BLE001
+        mk = None
+    _KEY_MAKER.append(mk)
+    return mk
 
 
 def run_history(kit, kind, size, ar, hist, stats=None, bcc="none"):
@@ -414,6 +503,8 @@ def run_history(kit, kind, size, ar, hist, stats=None, bcc="none"):
     keep = []      # keeps templates alive so ids stay unique
     active = 0
     stamp = 0
+    harness_made = set()   # idents of templates the harness loaded and put into the cache itself
+    make_key = key_maker() if any(o[0] == "c" for o in hist) else None
     tag = f"{kindtag(kind)}:auto_reload={'on' if ar else 'off'}:size={sizeclass(size)}"
     if bc is not None:
         tag += f":bytecode_cache={bcc}"
@@ -432,8 +523,226 @@ def run_history(kit, kind, size, ar, hist, stats=None, bcc="none"):
         elif fs:
             kit.put(tree, lid, name, val)
 
+    def check_cache(step, op, via):
+        """What the cache holds now: number of templates, which (loader, name)
+        pairs and, for a bounded cache, in which order -- must be what some
+        surviving model state holds.  Narrows ``states``."""
+        nonlocal states
+        if size == 0:
+            return None
+        oc = observe_cache(env, loaders)
+        if oc is None:
+            if stats is not None:
+                stats["cache_unobservable"] += 1
+            return None
+        n, keys = oc
+        if size > 0 and n > size:
+            return (f"capacity-exceeded:{tag}{via}",
+                    f"history {list(hist)} step {step} {op}: len(env.cache)={n} > cache_size={size}")
+        model_lens = sorted({len(s) for s in states})
+        nxt = {s for s in states if len(s) == n}
+        if not nxt:
+            return (f"cache-length:{'fewer' if n < model_lens[0] else 'more'}-than-the-loaded-templates:{tag}{via}",
+                    f"history {list(hist)} step {step} {op}: len(env.cache)={n}, keys {keys}; the "
+                    f"templates loaded and not yet evicted number {model_lens}: "
+                    f"{[[k for k, _ in s] for s in sorted(states)][:3]}")
+        states = nxt
+        if stats is not None:
+            stats["cache_len_checks"] += 1
+        if keys is None:
+            if stats is not None:
+                stats["cache_keys_unreadable"] += 1
+            return None
+        if len(keys) != n or len(set(keys)) != len(keys):
+            return (f"cache-keys:duplicate-or-miscounted:{tag}{via}",
+                    f"history {list(hist)} step {step} {op}: env.cache.keys() gives {keys} but "
+                    f"len(env.cache)={n}")
+        nxt = {s for s in states if sorted(k for k, _ in s) == sorted(keys)}
+        if not nxt:
+            return (f"cache-content:{tag}{via}",
+                    f"history {list(hist)} step {step} {op}: env.cache holds {sorted(keys)}; the model "
+                    f"(LRU eviction, only when room is needed) holds "
+                    f"{[sorted(k for k, _ in s) for s in sorted(states)][:3]}")
+        states = nxt
+        if stats is not None:
+            stats["cache_content_checks"] += 1
+        if size > 0:
+            # LRUCache.keys() is documented as "ordered by most recent usage"
+            mru_first = list(keys)
+            nxt = {s for s in states if [k for k, _ in reversed(s)] == mru_first}
+            if not nxt:
+                return (f"cache-order:{tag}{via}",
+                        f"history {list(hist)} step {step} {op}: env.cache.keys() (most recently used "
+                        f"first) = {mru_first}; model recency order "
+                        f"{[[k for k, _ in reversed(s)] for s in sorted(states)][:3]}")
+            states = nxt
+            if stats is not None:
+                stats["cache_order_checks"] += 1
+        return None
+
+    def ident_of(t):
+        ident = seen.get(id(t))
+        if ident is None:
+            ident = len(keep)
+            seen[id(t)] = ident
+            keep.append(t)
+        return ident
+
+    def cache_op(step, op):
+        """One direct use of the public cache object by the application."""
+        nonlocal states
+        code = op[1]
+        opname = CACHE_OP_NAMES[code]
+        via = f":after=cache.{opname}"
+        cache = env.cache
+        if stats is not None:
+            stats["cache_api_ops"] += 1
+        if code in "YL":
+            bad = inspect_cache(cache, step, op, opname)
+            return bad or check_cache(step, op, via)
+        name = op[2:] or None
+        key = M_key = None
+        ent = None
+        tmpl = None
+        if name is not None:
+            key = make_key(loaders[active], name)
+            M_key = (active, name)
+        if code in "SP":
+            # the application loads the template itself (documented BaseLoader.load)
+            try:
+                tmpl = loaders[active].load(env, name, env.make_globals(None))
+            except TemplateNotFound:
+                if stats is not None:
+                    stats["cacheop_skipped_no_source"] += 1
+                return None
+            except Exception as e:
+                return (f"exception:{type(e).__name__}:loader.load:{tag}",
+                        f"step {step} {op}: loader.load raised {type(e).__name__}: {e}")
+            cur = worlds[active][name]
+            ent = (ident_of(tmpl), cur[0], cur[1])
+            harness_made.add(ent[0])
+        try:
+            if code == "S":
+                r = cache.setdefault(key, tmpl)
+                res = ("val", seen.get(id(r), -1))
+            elif code == "G":
+                r = cache.get(key)
+                res = ("none",) if r is None else ("val", seen.get(id(r), -1))
+            elif code == "I":
+                r = cache[key]
+                res = ("val", seen.get(id(r), -1))
+            elif code == "P":
+                cache[key] = tmpl
+                res = ("done",)
+            elif code == "D":
+                del cache[key]
+                res = ("done",)
+            elif code == "N":
+                res = ("bool", key in cache)
+            elif code == "C":
+                cache.clear()
+                res = ("done",)
+            else:
+                raise AssertionError(op)
+        except KeyError:
+            res = ("keyerror",)
+        except Exception as e:
+            return (f"cache-api:{opname}:raises:{type(e).__name__}:{tag}",
+                    f"history {list(hist)} step {step} {op}: env.cache.{opname} raised "
+                    f"{type(e).__name__}: {e}")
+        pred = []
+        for s in sorted(states):
+            pred.extend(M.cache_op_outcomes(s, cfg, opname, M_key, ent))
+        nxt = {s2 for r2, s2 in pred if r2 == res}
+        if stats is not None:
+            hit = any(M._find(s, M_key) is not None for s in states) if M_key else False
+            full = size > 0 and any(len(s) >= size for s in states)
+            stats[f"cacheop_{opname}" + ("" if code in "PC" else "_hit" if hit else "_miss")] += 1
+            if code in "SP" and not hit and full:
+                stats["cacheop_insert_new_key_into_full_cache"] += 1
+                if code == "S":
+                    stats["cacheop_setdefault_miss_on_full_cache"] += 1
+            if code in "SGI" and hit and size >= 2 and \
+                    any(len(s) >= 2 and s[-1][0] != M_key for s in states):
+                stats["cacheop_hit_must_refresh_recency"] += 1
+        if not nxt:
+            allowed = sorted({r2 for r2, _ in pred})
+            return (f"cache-api:{opname}:wrong-result:{tag}",
+                    f"history {list(hist)} step {step} {op}: env.cache.{opname} gave {res}; the "
+                    f"templates cached at that moment allow {allowed[:4]}")
+        states = nxt
+        return check_cache(step, op, via)
+
+    def inspect_cache(cache, step, op, opname):
+        """copy() and iteration: what they show must be the cache content, and
+        they must leave the cache alone; a copy is a cache of the same kind and
+        capacity that lives its own life."""
+        try:
+            keys = list(cache.keys())
+            if op[1] == "L":
+                rd = lambda k: observe_key(k, loaders)  # noqa: E731
+                okeys = [rd(k) for k in keys]
+                it = [rd(k) for k in iter(cache)]
+                items = [(rd(k), seen.get(id(v), -1)) for k, v in cache.items()]
+                values = [seen.get(id(v), -1) for v in cache.values()]
+                rev = [rd(k) for k in reversed(cache)]
+                if None in okeys:
+                    if stats is not None:
+                        stats["cache_keys_unreadable"] += 1
+                    return None
+                if it != okeys or rev != okeys[::-1]:
+                    return (f"cache-api:iteration:order-disagrees-with-keys:{tag}",
+                            f"history {list(hist)} step {step}: keys() {okeys} iter {it} reversed {rev}")
+                if sorted(k for k, _ in items) != sorted(okeys) or \
+                        sorted(v for _, v in items) != sorted(values) or len(cache) != len(okeys):
+                    return (f"cache-api:iteration:items-values-disagree-with-keys:{tag}",
+                            f"history {list(hist)} step {step}: keys() {okeys} items {items} "
+                            f"values {values} len {len(cache)}")
+                got = sorted(items)
+                ok = any(sorted((k, e[0]) for k, e in s) == got for s in states)
+                if not ok:
+                    return (f"cache-api:iteration:items-are-not-the-cached-templates:{tag}",
+                            f"history {list(hist)} step {step}: items() gives (key, template) "
+                            f"{got}; cached are {[[(k, e[0]) for k, e in s] for s in sorted(states)][:3]}")
+                if stats is not None:
+                    stats["cacheop_iterate"] += 1
+                return None
+            cp = cache.copy()
+            if stats is not None:
+                stats["cacheop_copy"] += 1
+            if cp is cache or type(cp) is not type(cache) or list(cp.keys()) != keys or \
+                    len(cp) != len(cache) or \
+                    getattr(cp, "capacity", None) != getattr(cache, "capacity", None):
+                return (f"cache-api:copy:not-an-equal-cache:{tag}",
+                        f"history {list(hist)} step {step}: copy() of "
+                        f"{[observe_key(k, loaders) for k in keys]} (capacity "
+                        f"{getattr(cache, 'capacity', None)}) gave {type(cp).__name__} "
+                        f"{[observe_key(k, loaders) for k in cp.keys()]} (capacity "
+                        f"{getattr(cp, 'capacity', None)})")
+            # the copy is used on its own: the original must not notice (checked by the
+            # caller), and the copy stays within the capacity
+            for i in range(max(size, 1) + 1):
+                cp.setdefault(("copy-only", i), i)
+                cp[("copy-only", -i - 1)] = i
+                if size > 0 and len(cp) > size:
+                    return (f"capacity-exceeded:{tag}:copy-of-the-cache",
+                            f"history {list(hist)} step {step}: a copy() of env.cache holds "
+                            f"{len(cp)} items after inserts, capacity {size}")
+            cp.clear()
+            return None
+        except Exception as e:
+            return (f"cache-api:{opname}:raises:{type(e).__name__}:{tag}",
+                    f"history {list(hist)} step {step} {op}: {type(e).__name__}: {e}")
+
     for step, op in enumerate(hist):
         c = op[0]
+        if c == "c":
+            if size == 0 or make_key is None:
+                continue
+            bad = cache_op(step, op)
+            if bad:
+                return bad
+            continue
         if c == "w":
             active = 1 - active
             env.loader = loaders[active]
@@ -467,11 +776,7 @@ def run_history(kit, kind, size, ar, hist, stats=None, bcc="none"):
             return (f"exception:{type(e).__name__}:{tag}",
                     f"step {step} {op}: {type(e).__name__}: {e}")
         else:
-            ident = seen.get(id(t))
-            if ident is None:
-                ident = len(keep)
-                seen[id(t)] = ident
-                keep.append(t)
+            ident = ident_of(t)
             try:
                 text = t.render()
             except Exception as e:
@@ -530,58 +835,11 @@ def run_history(kit, kind, size, ar, hist, stats=None, bcc="none"):
         if not nxt:
             return classify(obs, pred, tag, step, op, hist, worlds[active], names)
         states = nxt
-        if size == 0:
-            continue
-        # what the cache holds now: number of templates, and which (loader, name)
-        # pairs -- must be what some surviving model state holds
-        oc = observe_cache(env, loaders)
-        if oc is None:
-            if stats is not None:
-                stats["cache_unobservable"] += 1
-            continue
-        n, keys = oc
-        if size > 0 and n > size:
-            return (f"capacity-exceeded:{tag}",
-                    f"history {list(hist)} step {step} {op}: len(env.cache)={n} > cache_size={size}")
-        model_lens = sorted({len(s) for s in states})
-        nxt = {s for s in states if len(s) == n}
-        if not nxt:
-            return (f"cache-length:{'fewer' if n < model_lens[0] else 'more'}-than-the-loaded-templates:{tag}",
-                    f"history {list(hist)} step {step} {op}: len(env.cache)={n}, keys {keys}; the "
-                    f"templates loaded and not yet evicted number {model_lens}: "
-                    f"{[[k for k, _ in s] for s in sorted(states)][:3]}")
-        states = nxt
-        if stats is not None:
-            stats["cache_len_checks"] += 1
-        if keys is None:
-            if stats is not None:
-                stats["cache_keys_unreadable"] += 1
-            continue
-        if len(keys) != n or len(set(keys)) != len(keys):
-            return (f"cache-keys:duplicate-or-miscounted:{tag}",
-                    f"history {list(hist)} step {step} {op}: env.cache.keys() gives {keys} but "
-                    f"len(env.cache)={n}")
-        nxt = {s for s in states if sorted(k for k, _ in s) == sorted(keys)}
-        if not nxt:
-            return (f"cache-content:{tag}",
-                    f"history {list(hist)} step {step} {op}: env.cache holds {sorted(keys)}; the model "
-                    f"(LRU eviction, only when room is needed) holds "
-                    f"{[sorted(k for k, _ in s) for s in sorted(states)][:3]}")
-        states = nxt
-        if stats is not None:
-            stats["cache_content_checks"] += 1
-        if size > 0:
-            # LRUCache.keys() is documented as "ordered by most recent usage"
-            mru_first = list(keys)
-            nxt = {s for s in states if [k for k, _ in reversed(s)] == mru_first}
-            if not nxt:
-                return (f"cache-order:{tag}",
-                        f"history {list(hist)} step {step} {op}: env.cache.keys() (most recently used "
-                        f"first) = {mru_first}; model recency order "
-                        f"{[[k for k, _ in reversed(s)] for s in sorted(states)][:3]}")
-            states = nxt
-            if stats is not None:
-                stats["cache_order_checks"] += 1
+        if stats is not None and res != M.NF and not calls and res[1] in harness_made:
+            stats["lookup_served_template_put_by_application"] += 1
+        bad = check_cache(step, op, "")
+        if bad:
+            return bad
     return None
 
 
@@ -651,7 +909,21 @@ def histories(maxlen):
                 yield idx, prefix + (last,)
 
 
-STAT_KEYS = ("lookups", "loader_calls", "notfound", "served_from_cache", "reload_of_cached",
+CACHE_OP_NAMES = {"S": "setdefault", "G": "get", "I": "getitem", "P": "setitem", "D": "delitem",
+                  "N": "contains", "C": "clear", "Y": "copy", "L": "iteration"}
+# direct uses of env.cache by the application, mixed into the histories
+CACHE_OPS = ("cSa", "cSb", "cSc", "cPa", "cPb", "cPc", "cGa", "cGb", "cIa", "cIb", "cDa", "cDb",
+             "cNa", "cC", "cY", "cL")
+CA_OPS = ("ga", "gb", "gc", "ma", "da") + CACHE_OPS
+
+STAT_KEYS = ("cache_api_ops", "cacheop_skipped_no_source", "cacheop_setdefault_hit",
+             "cacheop_setdefault_miss", "cacheop_get_hit", "cacheop_get_miss",
+             "cacheop_getitem_hit", "cacheop_getitem_miss", "cacheop_setitem", "cacheop_delitem_hit",
+             "cacheop_delitem_miss", "cacheop_contains_hit", "cacheop_contains_miss",
+             "cacheop_clear", "cacheop_copy", "cacheop_iterate",
+             "cacheop_insert_new_key_into_full_cache", "cacheop_setdefault_miss_on_full_cache",
+             "cacheop_hit_must_refresh_recency", "lookup_served_template_put_by_application",
+             "lookups", "loader_calls", "notfound", "served_from_cache", "reload_of_cached",
              "evicting_loads", "ambiguous_model_states", "cache_unobservable", "cache_len_checks",
              "cache_keys_unreadable", "cache_content_checks", "cache_order_checks",
              "reload_in_full_cache", "fs_reload_mtime_backwards", "empty_template_served",
@@ -673,6 +945,77 @@ def random_history(rng, length):
         hist = tuple(hist)
         if not has_noop(hist):
             return hist
+
+
+def random_cache_history(rng, length):
+    """A history of the given length in which about every second step is a
+    direct use of env.cache (pre-warming, inspection, invalidation by the
+    application), the rest lookups and source changes."""
+    while True:
+        hist = []
+        for i in range(length):
+            x = rng.random()
+            if x < 0.5:
+                hist.append(rng.choice(CACHE_OPS[:6]) if rng.random() < 0.4 else rng.choice(CACHE_OPS))
+            elif x < 0.85 or i == length - 1:
+                hist.append(rng.choice(GET_OPS[:3]) if rng.random() < 0.75 else rng.choice(GET_OPS))
+            else:
+                hist.append(rng.choice(MUT_OPS[:2]) if rng.random() < 0.5 else rng.choice(MUT_OPS))
+        hist = tuple(hist)
+        if not has_noop(hist) and any(o[0] == "c" for o in hist):
+            return hist
+
+
+CA_KINDS = ("dict", "func", "funcup", "fs", "pkg")
+
+
+def cache_histories(maxlen):
+    """Every history of length <= maxlen over CA_OPS that uses env.cache
+    directly at least once (a trailing cache operation is observable: the cache
+    content is read after every step)."""
+    idx = 0
+    for length in range(1, maxlen + 1):
+        for hist in itertools.product(CA_OPS, repeat=length):
+            idx += 1
+            if any(o[0] == "c" for o in hist):
+                yield idx, hist
+
+
+def part_cacheapi(ctx, kit, stats, quick):
+    """Exhaustive short histories mixing lookups / source changes with direct
+    uses of the public cache object; bounded and unbounded caches, the loader
+    kind and auto_reload rotating from history to history.  Returns False when
+    the time box cut the enumeration."""
+    maxlen = 3 if quick else 4
+    nhist = 0
+    for idx, hist in cache_histories(maxlen):
+        if not ctx.mine(idx) or has_noop(hist):
+            continue
+        # the unbounded cache is a plain dict: every third history only
+        # and length-4 histories (thorough) on one of the sizes 1, 2, 3 each
+        sizes = ((1, 2, -1) if idx % 3 == 0 else (1, 2)) if len(hist) < 4 else ((1, 2, 3)[idx % 3],)
+        for si, size in enumerate(sizes):
+            kind = CA_KINDS[(idx + si) % len(CA_KINDS)]
+            ar = ((idx // len(CA_KINDS)) + si) % 2 == 0
+            bad = run_history(kit, kind, size, ar, hist, stats)
+            ctx.ev()
+            ctx.count("exec_" + kind)
+            ctx.count("exec_cacheapi")
+            if size == 3:
+                ctx.count("exec_size3")
+            if bad:
+                ctx.violation(bad[0], bad[1], {"kind": kind, "size": size, "auto_reload": ar,
+                                               "hist": list(hist), "part": "cacheapi", "bcc": "none"})
+        ctx.count("cacheapi_histories")
+        if len(hist) >= 2:
+            ctx.dist(hist)
+        if idx % 400 == 0 and ctx.shard == 0:
+            ctx.sample({"kind": "dict", "size": 2, "auto_reload": True, "hist": list(hist)})
+        nhist += 1
+        if nhist % 25 == 0 and ctx.out_of_time():
+            ctx.count("enumeration_cut")
+            return False
+    return True
 
 
 def exec_all(ctx, kit, stats, hist, kinds, sizes, part, off_kinds=None, rot=0, bcc_every=0,
@@ -735,6 +1078,15 @@ def part_long(ctx, kit, stats, quick):
         ctx.dist(hist)
         if i < 2 and ctx.shard == 0:
             ctx.sample({"kind": "fsdn", "size": 3, "auto_reload": True, "hist": list(hist)})
+        if i % (4 if quick else 8) == 0:
+            # the same, with the application using env.cache directly in between
+            chist = random_cache_history(rng, rng.randint(lo, hi))
+            nx = exec_all(ctx, kit, stats, chist, LONG_KINDS, (1, 2, 3, -1), "long",
+                          off_kinds=("dict", "fs", "pkg"), rot=i, bcc_every=2,
+                          bcc_modes=("cold", "warm", "fswarm"))
+            ctx.count("exec_cacheapi", nx)
+            ctx.count("long_cacheapi_histories")
+            ctx.dist(chist)
         if i >= 10 and ctx.out_of_time():
             ctx.count("long_timeboxed")
             break
@@ -745,13 +1097,18 @@ def run(ctx):
     kit = Kit()
     stats = {k: 0 for k in STAT_KEYS}
     try:
+        t0 = ctx.elapsed()
         part_long(ctx, kit, stats, quick)
+        ctx.extra["shard_seconds_long"] = round(ctx.elapsed() - t0, 2)
         xk = KINDS + ("fsdn",)        # pkgdn only in the random long histories
         if quick:
             plan = [(xk, 1, 4)]
         else:
             plan = [(xk, 1, 5), (("dict",), 6, 6)]
-        complete = True
+        t0 = ctx.elapsed()
+        complete = part_cacheapi(ctx, kit, stats, quick)
+        ctx.extra["shard_seconds_cacheapi"] = round(ctx.elapsed() - t0, 2)
+        t0 = ctx.elapsed()
         nexec = 0
         nhist = 0
         for kinds, lo, hi in plan:
@@ -778,6 +1135,7 @@ def run(ctx):
                     complete = False
                     ctx.count("enumeration_cut")
                     break
+        ctx.extra["shard_seconds_enumeration"] = round(ctx.elapsed() - t0, 2)
         for k, v in stats.items():
             ctx.count(k, v)
         if complete:
